@@ -6,6 +6,7 @@
   untouched.
 -/
 import Miden.Lemmas.U64Tac
+import Miden.Lemmas.U64Pure
 namespace Miden.C16
 open Miden
 
@@ -50,6 +51,81 @@ theorem u64_xor_exact : ∀ (vm : Vm) (bh bl ah al : Nat) (rest : List Nat),
     16 ≤ rest.length →
     stackRun Generated.u64_xor vm = .ok (Nat.xor bh ah :: Nat.xor bl al :: rest) := by
   u64_tac Generated.u64_xor
+
+/-! ### Subtraction and comparisons (stack-only symbolic executor + borrow normal forms) -/
+set_option linter.unusedSimpArgs false
+set_option linter.unusedVariables false
+
+theorem u64_wrapping_sub_pure (bh bl ah al : Nat) (r : List Nat) (h3 : bh < two32) (h2 : bl < two32) (h1 : ah < two32) (h0 : al < two32) (hr : 16 ≤ r.length) :
+    runPure Generated.u64_wrapping_sub (bh :: bl :: ah :: al :: r)
+      = .ok ((u64of ah al + two64 - u64of bh bl) % two64 / two32 :: (u64of ah al + two64 - u64of bh bl) % two32 :: r) := by
+  u64_pre r hr
+  u64_exec Generated.u64_wrapping_sub
+  u64_fin ah al bh bl
+
+/-- `wrapping_sub` on machine states: limbs below 2^32, at least 16 further elements, rest untouched. -/
+theorem u64_wrapping_sub_exact (vm : Vm) (bh bl ah al : Nat) (r : List Nat) (hs : vm.stack = bh :: bl :: ah :: al :: r)
+    (h3 : bh < two32) (h2 : bl < two32) (h1 : ah < two32) (h0 : al < two32) (hr : 16 ≤ r.length) :
+    stackRun Generated.u64_wrapping_sub vm = .ok ((u64of ah al + two64 - u64of bh bl) % two64 / two32 :: (u64of ah al + two64 - u64of bh bl) % two32 :: r) := by
+  rw [stackRun_pure _ (by decide), hs]; exact u64_wrapping_sub_pure bh bl ah al r h3 h2 h1 h0 hr
+
+theorem u64_overflowing_sub_pure (bh bl ah al : Nat) (r : List Nat) (h3 : bh < two32) (h2 : bl < two32) (h1 : ah < two32) (h0 : al < two32) (hr : 16 ≤ r.length) :
+    runPure Generated.u64_overflowing_sub (bh :: bl :: ah :: al :: r)
+      = .ok ((if u64of ah al < u64of bh bl then 1 else 0) :: (u64of ah al + two64 - u64of bh bl) % two64 / two32 :: (u64of ah al + two64 - u64of bh bl) % two32 :: r) := by
+  u64_pre r hr
+  u64_exec Generated.u64_overflowing_sub
+  u64_fin ah al bh bl
+
+/-- `overflowing_sub` on machine states: limbs below 2^32, at least 16 further elements, rest untouched. -/
+theorem u64_overflowing_sub_exact (vm : Vm) (bh bl ah al : Nat) (r : List Nat) (hs : vm.stack = bh :: bl :: ah :: al :: r)
+    (h3 : bh < two32) (h2 : bl < two32) (h1 : ah < two32) (h0 : al < two32) (hr : 16 ≤ r.length) :
+    stackRun Generated.u64_overflowing_sub vm = .ok ((if u64of ah al < u64of bh bl then 1 else 0) :: (u64of ah al + two64 - u64of bh bl) % two64 / two32 :: (u64of ah al + two64 - u64of bh bl) % two32 :: r) := by
+  rw [stackRun_pure _ (by decide), hs]; exact u64_overflowing_sub_pure bh bl ah al r h3 h2 h1 h0 hr
+
+theorem u64_lt_pure (bh bl ah al : Nat) (r : List Nat) (h3 : bh < two32) (h2 : bl < two32) (h1 : ah < two32) (h0 : al < two32) (hr : 16 ≤ r.length) :
+    runPure Generated.u64_lt (bh :: bl :: ah :: al :: r) = .ok ((if u64of ah al < u64of bh bl then 1 else 0) :: r) := by
+  u64_pre r hr
+  u64_exec Generated.u64_lt
+  u64_fin ah al bh bl
+/-- `lt` on machine states: limbs below 2^32, at least 16 further elements, rest untouched. -/
+theorem u64_lt_exact (vm : Vm) (bh bl ah al : Nat) (r : List Nat) (hs : vm.stack = bh :: bl :: ah :: al :: r)
+    (h3 : bh < two32) (h2 : bl < two32) (h1 : ah < two32) (h0 : al < two32) (hr : 16 ≤ r.length) :
+    stackRun Generated.u64_lt vm = .ok ((if u64of ah al < u64of bh bl then 1 else 0) :: r) := by
+  rw [stackRun_pure _ (by decide), hs]; exact u64_lt_pure bh bl ah al r h3 h2 h1 h0 hr
+
+theorem u64_gt_pure (bh bl ah al : Nat) (r : List Nat) (h3 : bh < two32) (h2 : bl < two32) (h1 : ah < two32) (h0 : al < two32) (hr : 16 ≤ r.length) :
+    runPure Generated.u64_gt (bh :: bl :: ah :: al :: r) = .ok ((if u64of ah al > u64of bh bl then 1 else 0) :: r) := by
+  u64_pre r hr
+  u64_exec Generated.u64_gt
+  u64_fin ah al bh bl
+/-- `gt` on machine states: limbs below 2^32, at least 16 further elements, rest untouched. -/
+theorem u64_gt_exact (vm : Vm) (bh bl ah al : Nat) (r : List Nat) (hs : vm.stack = bh :: bl :: ah :: al :: r)
+    (h3 : bh < two32) (h2 : bl < two32) (h1 : ah < two32) (h0 : al < two32) (hr : 16 ≤ r.length) :
+    stackRun Generated.u64_gt vm = .ok ((if u64of ah al > u64of bh bl then 1 else 0) :: r) := by
+  rw [stackRun_pure _ (by decide), hs]; exact u64_gt_pure bh bl ah al r h3 h2 h1 h0 hr
+
+theorem u64_lte_pure (bh bl ah al : Nat) (r : List Nat) (h3 : bh < two32) (h2 : bl < two32) (h1 : ah < two32) (h0 : al < two32) (hr : 16 ≤ r.length) :
+    runPure Generated.u64_lte (bh :: bl :: ah :: al :: r) = .ok ((if u64of ah al ≤ u64of bh bl then 1 else 0) :: r) := by
+  u64_pre r hr
+  u64_exec Generated.u64_lte
+  u64_fin ah al bh bl
+/-- `lte` on machine states: limbs below 2^32, at least 16 further elements, rest untouched. -/
+theorem u64_lte_exact (vm : Vm) (bh bl ah al : Nat) (r : List Nat) (hs : vm.stack = bh :: bl :: ah :: al :: r)
+    (h3 : bh < two32) (h2 : bl < two32) (h1 : ah < two32) (h0 : al < two32) (hr : 16 ≤ r.length) :
+    stackRun Generated.u64_lte vm = .ok ((if u64of ah al ≤ u64of bh bl then 1 else 0) :: r) := by
+  rw [stackRun_pure _ (by decide), hs]; exact u64_lte_pure bh bl ah al r h3 h2 h1 h0 hr
+
+theorem u64_gte_pure (bh bl ah al : Nat) (r : List Nat) (h3 : bh < two32) (h2 : bl < two32) (h1 : ah < two32) (h0 : al < two32) (hr : 16 ≤ r.length) :
+    runPure Generated.u64_gte (bh :: bl :: ah :: al :: r) = .ok ((if u64of ah al ≥ u64of bh bl then 1 else 0) :: r) := by
+  u64_pre r hr
+  u64_exec Generated.u64_gte
+  u64_fin ah al bh bl
+set_option maxRecDepth 4000 in
+/-- `gte` on machine states: limbs below 2^32, at least 16 further elements, rest untouched. -/
+theorem u64_gte_exact (vm : Vm) (bh bl ah al : Nat) (r : List Nat) (hs : vm.stack = bh :: bl :: ah :: al :: r)
+    (h3 : bh < two32) (h2 : bl < two32) (h1 : ah < two32) (h0 : al < two32) (hr : 16 ≤ r.length) :
+    stackRun Generated.u64_gte vm = .ok ((if u64of ah al ≥ u64of bh bl then 1 else 0) :: r) := by
+  rw [stackRun_pure _ (by decide), hs]; exact u64_gte_pure bh bl ah al r h3 h2 h1 h0 hr
 
 -- Non-vacuity: the hypotheses are met by a concrete state and the procedure really runs.
 example : (stackRun Generated.u64_overflowing_add
